@@ -581,7 +581,7 @@ class QuoteEval:
     def _ev_local(self, frame, l):
         fn = frame.fn
         reach = fn.reachable(0)
-        ds = [d for d in fn.defs().get(l, []) if d[0] in reach and not fn.blocks[d[0]]["cleanup"]]
+        ds = [d for d in fn.defs().get(l, []) if d[0] in reach and not fn.blocks[d[0]]["cleanup"] and not self._through_deref(d)]
         if 1 <= l <= fn.argc and not [d for d in ds if self._whole(d)]:
             if fn.raw["kind"] == "Closure" and l == 1:
                 return ("env",)
@@ -611,6 +611,13 @@ class QuoteEval:
             if common:
                 alts = [(tuple(a for a in g if a not in common), x) for g, x in alts]
         return ("alt", tuple(alts))
+
+    @staticmethod
+    def _through_deref(d):
+        """`(*p).x = v` / `*p = v` writes the pointee; the pointer local itself is unchanged."""
+        bb, kind, node = d
+        pl = node["pl"] if kind == "assign" else (node.get("dest") if kind == "call" else None)
+        return bool(pl and pl["p"] and pl["p"][0] == "*")
 
     @staticmethod
     def _whole(d):
